@@ -103,6 +103,24 @@ class Native:
         return f"<native {self.name}>"
 
 
+class Crash(Unknown):
+    """evaluating this raises for certain: an index beyond the end of a literal sequence, a key missing from a literal dict, a name that
+    nothing defines.  Rules report it as a violation (the path the rule evaluates is a path of the property's domain), not as an
+    analysis error."""
+
+    def __repr__(self):
+        return f"Crash({self.why})"
+
+
+def is_crash(v):
+    return isinstance(v, Crash)
+
+
+class _CrashSig(Exception):
+    def __init__(self, crash):
+        self.crash = crash
+
+
 class Raised:
     """result of a call whose path ends in a `raise`"""
 
@@ -289,7 +307,7 @@ def to_rat(v):
     if isinstance(v, str):
         return F.sym(repr(v))
     if isinstance(v, Ref):
-        return F.sym(v.name)
+        return F.sym("@" + v.name)
     if isinstance(v, tuple):
         xs = [to_rat(x) for x in v]
         for x in xs:
@@ -444,6 +462,7 @@ class Interp:
         self._globals = {}
         self._evaluating = set()
         self._classes = {}
+        self._names = {}
 
     # ------------------------------------------------------------------ module level
     def cls(self, name, mod=None):
@@ -527,6 +546,8 @@ class Interp:
             return self._invoke(f, [clone(p) for p in pos], {k: clone(v) for k, v in (kw or {}).items()}, f.node)
         except _Raise as r:
             return Raised(r.node)
+        except _CrashSig as c:
+            return c.crash
 
     def method(self, obj, name, pos=(), kw=None):
         f = self._getattr(obj, name, None)
@@ -536,6 +557,17 @@ class Interp:
             return self._invoke(f, [clone(p) for p in pos], {k: clone(v) for k, v in (kw or {}).items()}, f.node)
         except _Raise as r:
             return Raised(r.node)
+        except _CrashSig as c:
+            return c.crash
+
+    def attr(self, obj, name, node=None):
+        """value of obj.name (a property of the module's class is evaluated)"""
+        try:
+            return self._getattr(obj, name, node)
+        except _Raise as r:
+            return Raised(r.node)
+        except _CrashSig as c:
+            return c.crash
 
     def instantiate(self, clsname, pos=(), kw=None):
         c = self.cls(clsname)
@@ -543,6 +575,8 @@ class Interp:
             return self._construct(c, [clone(p) for p in pos], {k: clone(v) for k, v in (kw or {}).items()}, c.node)
         except _Raise as r:
             return Raised(r.node)
+        except _CrashSig as c:
+            return c.crash
 
     def expr(self, text, env=None):
         """value of a Python expression over `env` (the expected side of an obligation), evaluated by the same machinery"""
@@ -552,6 +586,8 @@ class Interp:
         self.calls, self.loops, self.cells, self.inplace = [], [], [], []
         try:
             return self.ev(ast.parse(text, mode="eval").body, fr)
+        except _CrashSig as c:
+            return c.crash
         finally:
             self.calls, self.loops, self.cells, self.inplace = saved
 
@@ -606,6 +642,8 @@ class Interp:
             v = self.ev(test, fr)
         except Unsupported as e:
             v = Unknown(str(e))
+        if is_crash(v):
+            raise _CrashSig(v)
         return self.truth(v, test)
 
     # ------------------------------------------------------------------ expressions
@@ -635,7 +673,57 @@ class Interp:
         v = self._global(name, mod)
         if v is not None:
             return v
+        known = self._known_names(mod)
+        if known is not None and name not in known:
+            return Crash(f"NameError: name '{name}' is not defined")
         return Ref(name)
+
+    def _known_names(self, mod):
+        """names a module-level lookup can find: imports, module-level bindings (also under try / if / with / for), builtins;
+        None when a star import makes that unknowable"""
+        k = mod.rel
+        if k in self._names:
+            return self._names[k]
+        import builtins
+        names = set(dir(builtins)) | {"__name__", "__file__", "__doc__", "__package__", "__spec__"}
+        star = False
+
+        def walk(stmts):
+            nonlocal star
+            for st in stmts:
+                if isinstance(st, ast.Import):
+                    for a in st.names:
+                        names.add(a.asname or a.name.split(".")[0])
+                elif isinstance(st, ast.ImportFrom):
+                    for a in st.names:
+                        if a.name == "*":
+                            star = True
+                        names.add(a.asname or a.name)
+                elif isinstance(st, (ast.FunctionDef, ast.AsyncFunctionDef, ast.ClassDef)):
+                    names.add(st.name)
+                elif isinstance(st, (ast.Assign, ast.AugAssign, ast.AnnAssign, ast.For, ast.With)):
+                    for x in ast.walk(st):
+                        if isinstance(x, ast.Name) and isinstance(x.ctx, ast.Store):
+                            names.add(x.id)
+                    for fld in ("body", "orelse"):
+                        walk(getattr(st, fld, []) or [])
+                elif isinstance(st, (ast.If, ast.While)):
+                    walk(st.body)
+                    walk(st.orelse)
+                elif isinstance(st, ast.Try):
+                    walk(st.body)
+                    walk(st.orelse)
+                    walk(st.finalbody)
+                    for h_ in st.handlers:
+                        if h_.name:
+                            names.add(h_.name)
+                        walk(h_.body)
+        walk(mod.tree.body)
+        for st in ast.walk(mod.tree):
+            if isinstance(st, ast.Global):
+                names.update(st.names)
+        self._names[k] = None if star else names
+        return self._names[k]
 
     def _e_Name(self, node, fr):
         return self._lookup(node.id, fr)
@@ -668,6 +756,10 @@ class Interp:
         if isinstance(base, F.Rat):
             if name in ("T", "real"):
                 return base
+            if self.hook is not None:
+                r = self.hook(self, "getattr", [base, name], {}, node)
+                if r is not NotImplemented:
+                    return r
             return F.fn("attr:" + name, base)
         if isinstance(base, ClassV):
             if name in base.methods:
@@ -933,6 +1025,9 @@ class Interp:
                 out.extend(v)
             else:
                 out.append(self.ev(e, fr))
+        for v in out:
+            if is_crash(v):
+                return v
         return tuple(out)
 
     _e_List = _e_Tuple
@@ -1018,8 +1113,10 @@ class Interp:
                 return Unknown(f"non-constant index into a sequence: {ast.unparse(node)}")
             try:
                 return base[ix]
-            except (IndexError, TypeError):
-                return Unknown(f"index out of range: {ast.unparse(node)}")
+            except IndexError:
+                return Crash(f"IndexError: {ast.unparse(node)} on a sequence of length {len(base)}")
+            except TypeError:
+                return Unknown(f"index of a sequence: {ast.unparse(node)}")
         if isinstance(base, DictV):
             kv = self.ev(node.slice, fr)
             if isinstance(kv, F.Rat) and not is_const(kv):
@@ -1027,8 +1124,10 @@ class Interp:
                 if t is not None:
                     kv = t
             k = key_of(kv)
-            if k is None or k not in base.d:
-                return Unknown(f"dict lookup {ast.unparse(node)}")
+            if k is None or (isinstance(kv, F.Rat) and not is_const(kv)):
+                return kv if is_unknown(kv) else Unknown(f"dict lookup {ast.unparse(node)}")
+            if k not in base.d:
+                return Crash(f"KeyError: {ast.unparse(node)}")
             return base.d[k][1]
         if isinstance(base, F.Rat):
             if self.erase:
@@ -1122,6 +1221,9 @@ class Interp:
                     return Unknown("**kwargs of unknown content")
             else:
                 kw[k.arg] = self.ev(k.value, fr)
+        for v in list(pos) + list(kw.values()):
+            if is_crash(v):
+                return v
         # callee
         f = node.func
         if isinstance(f, ast.Attribute):
@@ -1494,12 +1596,16 @@ class Interp:
         if isinstance(st.value, ast.Constant):
             return
         try:
-            self.ev(st.value, fr)
+            v = self.ev(st.value, fr)
         except Unsupported:
-            pass
+            return
+        if is_crash(v):
+            raise _CrashSig(v)
 
     def _s_Return(self, st, fr):
         v = self.ev(st.value, fr) if st.value is not None else None
+        if is_crash(v):
+            raise _CrashSig(v)
         raise _Return(v, st)
 
     def _s_Raise(self, st, fr):
@@ -1516,6 +1622,8 @@ class Interp:
 
     def _s_Assign(self, st, fr):
         v = self.ev(st.value, fr)
+        if is_crash(v):
+            raise _CrashSig(v)
         for t in st.targets:
             self._bind_target(t, v, fr, st)
 
@@ -1610,6 +1718,9 @@ class Interp:
         else:
             raise Unsupported(f"augmented assignment to {type(t).__name__}")
         rhs = self.ev(st.value, fr)
+        for v in (cur, rhs):
+            if is_crash(v):
+                raise _CrashSig(v)
         new = self.binop(st.op, cur, rhs, st)
         counter = isinstance(st.op, (ast.Add, ast.Sub)) and is_const(rhs)
         if isinstance(cur, F.Rat) and not counter:
@@ -1647,6 +1758,9 @@ class Interp:
             except (_Return, _Raise, _Break, _Continue):
                 fr.vars = base
                 raise Unsupported(f"undecided test guards control flow: `{what}` at line {st.lineno}")
+            except _CrashSig as c:
+                fr.vars = base
+                raise Unsupported(f"an arm of the undecided test `{what}` raises: {c.crash.why}")
             outs.append(fr.vars)
         merged = {}
         for k in set(outs[0]) | set(outs[1]):
@@ -1751,6 +1865,8 @@ class Interp:
                 self.run(st.body, fr)
             except (_Break, _Continue, _Return, _Raise):
                 raise Unsupported(f"control flow inside a loop with a symbolic trip count at line {st.lineno}")
+            except _CrashSig as c:
+                raise Unsupported(f"the body of a loop with a symbolic trip count raises: {c.crash.why}")
             rec.out = {n: clone(fr.vars.get(n)) for n in rec.carried}
         finally:
             new = dict(saved)
